@@ -235,6 +235,61 @@ Proof.
   repeat split; try lia. exact C.
 Qed.
 
+(* ---------- any number of FUSE reads on one handle, in any order ---------- *)
+Lemma rd_read_closed psize total r n :
+  rd_closed r = false -> rd_closed (fst (fst (fst (rd_read psize total r n)))) = false.
+Proof.
+  intros Hc. unfold rd_read. rewrite Hc.
+  destruct (rd_length r <=? rd_pos r); [exact Hc|].
+  destruct (total <=? rd_offset r + rd_pos r); [exact Hc|]. reflexivity.
+Qed.
+
+Lemma read_n_closed cap psize total : forall fuel r n,
+  rd_closed r = false -> rd_closed (snd (read_n fuel cap psize total r n)) = false.
+Proof.
+  induction fuel as [|f IH]; intros r n Hc; [exact Hc|].
+  rewrite read_n_S. destruct (n <=? 0); [exact Hc|].
+  pose proof (rd_read_closed psize total r (Z.min cap n) Hc) as H.
+  destruct (rd_read psize total r (Z.min cap n)) as [[[r' abs] cnt] err]. cbn [fst] in H.
+  destruct err; [|exact H|exact H].
+  destruct (cnt =? 0); [exact H|].
+  specialize (IH r' (n - cnt) H). destruct (read_n f cap psize total r' (n - cnt)) as [l r'']. exact IH.
+Qed.
+
+Lemma fuse_op_spec psize total r o n :
+  rd_wf psize total r -> rd_closed r = false -> rd_offset r + rd_length r <= total -> 0 <= o -> 0 < n ->
+  let res := fuse_op psize total r (o, n) in
+  chained (rd_offset r + o) (fst res) /\ rsum (fst res) = fuse_read (rd_length r) o n /\
+  rd_wf psize total (snd res) /\ rd_closed (snd res) = false /\
+  rd_offset (snd res) = rd_offset r /\ rd_length (snd res) = rd_length r.
+Proof.
+  intros Hwf Hc Hin Ho Hn res. subst res. unfold fuse_op. cbn [fst snd].
+  unfold rd_seek. rewrite Hc. replace (o <? 0) with false by lia. cbn [fst].
+  set (r1 := {| rd_offset := rd_offset r; rd_length := rd_length r; rd_pos := o; rd_closed := false |}).
+  destruct Hwf as (W1 & W2 & W3 & W4 & W5).
+  assert (Hwf1 : rd_wf psize total r1) by (unfold rd_wf, r1; cbn; lia).
+  assert (Hn0 : 0 <= n) by lia.
+  destruct (read_n_spec n psize total Hn (Z.to_nat n) r1 n Hwf1 eq_refl Hn0 (le_n _)) as (C & S & P & O & L).
+  pose proof (read_n_closed n psize total (Z.to_nat n) r1 n eq_refl) as Hcl.
+  unfold left, r1, fuse_read in *. cbn [rd_offset rd_pos rd_length] in *.
+  repeat split; try assumption; try lia.
+Qed.
+
+(* every read of any sequence returns its own bytes, whatever the reads before it did to the reader *)
+Lemma fuse_ops_spec psize total : forall ops r,
+  rd_wf psize total r -> rd_closed r = false -> rd_offset r + rd_length r <= total ->
+  Forall (fun op => 0 <= fst op /\ 0 < snd op) ops ->
+  Forall2 (fun op l => chained (rd_offset r + fst op) l /\ rsum l = fuse_read (rd_length r) (fst op) (snd op))
+          ops (fuse_ops psize total r ops).
+Proof.
+  induction ops as [|[o n] rest IH]; intros r Hwf Hc Hin Hops; cbn [fuse_ops]; [constructor|].
+  inversion Hops as [|? ? [Ho Hn] Hrest]; subst. cbn [fst snd] in Ho, Hn.
+  destruct (fuse_op_spec psize total r o n Hwf Hc Hin Ho Hn) as (C & S & Hwf' & Hc' & Hoff & Hlen).
+  destruct (fuse_op psize total r (o, n)) as [l r'] eqn:E. cbn [fst snd] in *.
+  constructor; [split; assumption|].
+  specialize (IH r' Hwf' Hc'). rewrite Hoff, Hlen in IH. apply IH; [exact Hin | exact Hrest].
+Qed.
+
 Example http_range_example :
   fst (read_n 100 32768 16384 100000 (fst (rd_seek (rd_new 5000 60000) 100 SeekStart)) 40000)
   = [(5100, 11284); (16384, 16384); (32768, 12332)].
